@@ -666,8 +666,17 @@ class Evaluator(object):
             if isinstance(v.func, ast.Attribute) and v.func.attr in MUTATOR_METHODS:
                 root = _root_name(v.func.value)
                 if root is not None and root in env and not _is_module_term(env[root]):
-                    cont = self.ev(v.func.value, env)
-                    args = tuple(self.ev(a, env) if not isinstance(a, ast.Starred) else tm.mk("star", self.ev(a.value, env)) for a in v.args)
+                    # reuse the terms computed when the call expression was evaluated (no second evaluation, no duplicate sites)
+                    cs = None
+                    for x in reversed(self.summary.sites):
+                        if x.kind == "call" and x.node is v:
+                            cs = x
+                            break
+                    if cs is not None and cs.base is not None:
+                        cont, args = cs.base, tuple(cs.args)
+                    else:
+                        cont = self.ev(v.func.value, env)
+                        args = tuple(self.ev(a, env) if not isinstance(a, ast.Starred) else tm.mk("star", self.ev(a.value, env)) for a in v.args)
                     key = tm.none() if isinstance(v.func.value, ast.Name) else tm.mk("at", cont, tm.none())
                     env[root] = tm.upd(env[root], "method:" + v.func.attr, key, tm.tup(args))
                     for ms in reversed(self.summary.sites):
@@ -989,8 +998,14 @@ def _handler_types(st):
 
 
 def _root_name(node):
-    while isinstance(node, (ast.Subscript, ast.Attribute)):
-        node = node.value
+    while True:
+        if isinstance(node, (ast.Subscript, ast.Attribute)):
+            node = node.value
+        elif isinstance(node, ast.Call) and isinstance(node.func, ast.Attribute) and node.func.attr in ("setdefault", "get"):
+            # G.setdefault(k, []).append(v): the object written is (an element of) G
+            node = node.func.value
+        else:
+            break
     if isinstance(node, ast.Name):
         return node.id
     return None
